@@ -140,6 +140,11 @@ Definition model_ok (c : case) : bool :=
         else true) (seq 0 n)) (seq 0 n)
   end.
 
+(* JC69 exactly at saturation (p = 3/4, hence 1 - 4p/3 = 0 also in binary64: 3/4 is a float and the
+   division by the total is exact): not a borderline case, the estimator is undefined *)
+Definition exact_saturation (c : case) (pi : list Q) (pq : pairq) : bool :=
+  Z.eqb (k_model c) 2 && existsb (fun q => Qeq_bool q 0) (estimator_args c pi pq).
+
 (* ---- SPEC: sane matrix ------------------------------------------------------------------------------- *)
 Definition spec_check (c : case) : option bool :=
   let rs := unrows (k_in c) in
@@ -167,7 +172,7 @@ Definition spec_check (c : case) : option bool :=
                (* raw / p-distance: settled exactly by the correspondence; the internal-gap mode is also
                   judged against its column-wise definition *)
                (if Z.eqb (k_gapmode c) 1 then exact_entry_ok c f (spec_internal c s1 s2) else true)
-             else if estimator_borderline c pi pq then true
+             else if estimator_borderline c pi pq && negb (exact_saturation c pi pq) then true
              else if estimator_clear c pi pq then
                (* finite, never below the observed proportion, 0 when nothing differs *)
                Z.eqb (fl_class f) 0 &&
